@@ -2,12 +2,12 @@
    by the correspondence runs of C06-C08, C14, C15, C19. *)
 From Coq Require Import List Arith Bool ZArith.
 Import ListNotations.
-From AG Require Import Toposort Tagged Tower.
+From AG Require Import Toposort Tagged Tower EngineTie.
 Local Open Scope Z_scope.
 
 Definition zvalue := value Z.
-(* the id supply of the implementation as it stands in /repo *)
-Definition SUPPLY : supply := Mono.
+(* the id supply /repo implements, read off tracer.TraceStack.new_trace by the translator on this run *)
+Definition SUPPLY : supply := EngineTie.supply_of_source.
 
 Definition zeval_sup (sup : supply) (fuel : nat) (env : list zvalue) (e : exp) (s : state Z) :=
   eval Z 0 1 Z.add Z.sub Z.mul Z.opp zF Z.sgn (fun k => Z.gtb k 0) (fun k => k) sup
